@@ -100,6 +100,10 @@ Definition step (r : Z) (s : st) (l : label) : option st :=
           if now s <? dl then None else
           Some {| now := now s; ph := ph s; t0 := t0 s; tmo := tmo s; stack := stack s; tmr := TFired;
                   waited := waited s; otmr := otmr s; done := done s |}
+      | TCancelled =>
+          (* the timer queue had already handed the action to its own greenlet when context() cancelled it (both at
+             the rounded deadline): _TimeoutHelper still runs, and posts its TimeoutError like any other late arrival *)
+          if now s <? ceil_r r (deadline s) then None else Some s
       | _ => None
       end
   | OFire =>
